@@ -1,4 +1,59 @@
 import PeptVerif.Model.Proto
-/-! driver for C16 (placeholder: replies bad-op to everything until the model is written) -/
-def step (_line : String) : String := "bad-op"
-def main : IO Unit := Proto.runDriver step
+import PeptVerif.Model.Annotation
+import PeptVerif.Model.Search
+/-! driver for C16: subsequence search and coverage -/
+open Proto Pept Pept.Search
+
+def showNats (l : List Nat) : String := ",".intercalate (l.map toString)
+
+def showBool (b : Bool) : String := if b then "True" else "False"
+
+def parseAnnots? (s : String) : Option (List Annotation) :=
+  if s.isEmpty then some [] else (s.splitOn "~").mapM Wire.parseAnnotation?
+
+def parseKeys? (s : String) : Option (List (List Char)) :=
+  if s.isEmpty then some [] else (s.splitOn ",").mapM Wire.unesc
+
+def step (line : String) : String :=
+  match splitTab line with
+  | ["occ", q, t] =>
+    match Wire.unesc q, Wire.unesc t with
+    | some q, some t => showNats (occurrences q t)
+    | _, _ => "bad-op"
+  | ["occ_nonoverlap", q, t] =>
+    match Wire.unesc q, Wire.unesc t with
+    | some q, some t => showNats (occNonOverlap q t)
+    | _, _ => "bad-op"
+  | ["find", q, t] =>
+    match Wire.parseAnnotation? q, Wire.parseAnnotation? t with
+    | some q, some t => showNats (findIndices q t)
+    | _, _ => "bad-op"
+  | ["issub", q, t] =>
+    match Wire.parseAnnotation? q, Wire.parseAnnotation? t with
+    | some q, some t => showBool (isSubsequenceM q t)
+    | _, _ => "bad-op"
+  | ["fsi", t, q, ign] =>
+    match Wire.parseAnnotation? t, Wire.parseAnnotation? q, parseBool? ign with
+    | some t, some q, some ign => showNats (findSubsequenceIndices t q ign)
+    | _, _, _ => "bad-op"
+  | ["issubf", q, t] =>
+    match Wire.parseAnnotation? q, Wire.parseAnnotation? t with
+    | some q, some t => showBool (isSubsequenceOrdered q t)
+    | _, _ => "bad-op"
+  | ["unord", sub, seq] =>
+    match parseKeys? sub, parseKeys? seq with
+    | some sub, some seq => showBool (unorderedContained sub seq)
+    | _, _ => "bad-op"
+  | ["cov", t, acc, ign, qs] =>
+    match Wire.parseAnnotation? t, parseBool? acc, parseBool? ign, parseAnnots? qs with
+    | some t, some acc, some ign, some qs => showNats (coverage t qs acc ign)
+    | _, _, _, _ => "bad-op"
+  | ["pct", t, ign, qs] =>
+    match Wire.parseAnnotation? t, parseBool? ign, parseAnnots? qs with
+    | some t, some ign, some qs =>
+      let r := percentCoverage t qs ign
+      toString r.num ++ "/" ++ toString r.den
+    | _, _, _ => "bad-op"
+  | _ => "bad-op"
+
+def main : IO Unit := runDriver step
